@@ -48,13 +48,14 @@ type Horizon struct {
 }
 
 type SoilSpec struct {
-	ID        string
-	Horizons  []Horizon
-	RootDepth int
-	DrainDep  int
-	DrainFrac float64
-	GW        int // groundwater depth in dm from the soil file
-	CSV       bool
+	ID          string
+	Horizons    []Horizon
+	RootDepth   int
+	MixedRoutes bool `json:",omitempty"` // some horizons with explicit FC / WP / PS, the others from the texture table
+	DrainDep    int
+	DrainFrac   float64
+	GW          int // groundwater depth in dm from the soil file
+	CSV         bool
 }
 
 func (s *SoilSpec) N() int { return s.Horizons[len(s.Horizons)-1].LowerDM }
@@ -950,7 +951,31 @@ func genSoil(sc *Scenario, r *Rng, p Profile) {
 		}
 		s.Horizons = append(s.Horizons, h)
 	}
-	// the hydraulic route is decided per horizon by FC>0: keep it uniform (all or none)
+	// the hydraulic route is decided per horizon by FC > 0: mostly uniform (all or none); a quarter of the explicit-value
+	// profiles with two or more horizons are mixed - some horizons carry their own values, the others (in half of the mixed
+	// profiles the lowest one, which decides how the daily groundwater update treats the whole profile) come from the table
+	if rm := NewRng(mix(mix(sc.Seed, uint64(sc.Index)), 9393)); route == 1 && len(s.Horizons) >= 2 && rm.Bool(0.25) {
+		n := len(s.Horizons)
+		clear := map[int]bool{}
+		if rm.Bool(0.5) {
+			clear[n-1] = true
+		}
+		for k := 0; k < n-1; k++ {
+			if rm.Bool(0.3) {
+				clear[k] = true
+			}
+		}
+		if len(clear) == 0 {
+			clear[rm.Intn(n)] = true
+		}
+		if len(clear) == n {
+			delete(clear, rm.Intn(n-1))
+		}
+		for k := range clear {
+			s.Horizons[k].FC, s.Horizons[k].WP, s.Horizons[k].PS = 0, 0, 0
+		}
+		s.MixedRoutes = true
+	}
 	s.RootDepth = r.Range(1, 20)
 	if r.Bool(p.Drain) {
 		s.DrainDep = r.Range(1, nLayers)
